@@ -215,7 +215,13 @@ func newHarness(wr *wiring, idGenerator id.IGenerator, constructor constructor) 
 					case <-ctx.Done():
 						return noAction{}
 					}
-					<-node.activity.Cancel()
+					// once the instance is cancelled the activity's run loop may have
+					// ended with this request unread
+					select {
+					case <-node.activity.Cancel():
+					case <-ctx.Done():
+						return noAction{}
+					}
 					return action
 				}
 			} else {
